@@ -173,6 +173,7 @@ func (st *Stream) produceRanges(ctx context.Context) {
 func (st *Stream) produceKVs(ctx context.Context, threadId int) error {
 	st.numProducers.Add(1)
 	defer st.numProducers.Add(-1)
+	verifPoint("stream.producer.start", uint64(threadId))
 
 	var txn *Txn
 	if st.readTs > 0 {
@@ -180,6 +181,7 @@ func (st *Stream) produceKVs(ctx context.Context, threadId int) error {
 	} else {
 		txn = st.db.NewTransaction(false)
 	}
+	verifPoint("stream.producer.txn", uint64(threadId), txn.readTs)
 	defer txn.Discard()
 
 	// produceKVs is running iterate serially. So, we can define the outList here.
